@@ -433,7 +433,11 @@ pub async fn stop(
             }
             Err(err) => {
                 error!("Failed to stop service {}: {err}", node.service_name);
-                failed_services.push((node.service_name.clone(), err.to_string()))
+                failed_services.push((node.service_name.clone(), err.to_string()));
+                // A failed stop may still have recorded that the process has gone (the service
+                // manager reported an error after the kill): save that, as `upgrade` does,
+                // otherwise the registry file keeps a RUNNING entry with the PID of a dead process.
+                node_registry.save()?;
             }
         }
     }
